@@ -694,6 +694,9 @@ fn fault_run(h: &History, root: &Path, j: u64, errno: i32, rec: &Recorded, res: 
             ex.cur_op = i;
             let r = catch_unwind(AssertUnwindSafe(|| ex.debug_exec_no_model(i, op)));
             let fired = fsx::fault_fired();
+            if std::env::var("STORESIM_FAULT_DEBUG").is_ok() {
+                eprintln!("op {i} {:?} -> {:?} fired={:?}\n{}", op, r.as_ref().map_err(|_| "panic"), fired, ex.dump_levels());
+            }
             match (&r, fired.as_ref()) {
                 (Ok(Ok(())), None) => {
                     model::apply_op(&mut prev, h, i, op);
@@ -761,10 +764,23 @@ fn fault_run(h: &History, root: &Path, j: u64, errno: i32, rec: &Recorded, res: 
                 let wp = normalise(&prev, h);
                 let wn = next.as_ref().map(|n| normalise(n, h));
                 if obs != wp && wn.as_ref().map(|w| obs != *w).unwrap_or(true) {
-                    v(
-                        "wrong-data-readable-after-io-error".to_string(),
-                        format!("live store after {ename} at call {j}: {}", describe_diff(&obs, &wp)),
-                    );
+                    // A history that reopened the store may already be in the state of the known
+                    // recovery defect F-C01-1 (key-touching tables with interleaved timestamps
+                    // put side by side); then what is readable is wrong before any fault.  Only
+                    // when an earlier Reopen of this very run lost the order of two such tables
+                    // AND the tree's own lookup disagrees with the newest version in its files.
+                    let from_reopen = matches!(ex.level_overlap.as_ref(), Some((_, "reopen", _)));
+                    let sig = if from_reopen { ex.recovery_misorder_signature() } else { None };
+                    match sig {
+                        Some(m) => v(
+                            "misordered-levels-from-reopen:wrong-data-readable-after-io-error".to_string(),
+                            format!("live store after {ename} at call {j}: {} [{m}]", describe_diff(&obs, &wp)),
+                        ),
+                        None => v(
+                            "wrong-data-readable-after-io-error".to_string(),
+                            format!("live store after {ename} at call {j}: {}", describe_diff(&obs, &wp)),
+                        ),
+                    }
                 }
             }
             Ok(Err(_)) => {
@@ -794,10 +810,16 @@ fn fault_run(h: &History, root: &Path, j: u64, errno: i32, rec: &Recorded, res: 
                     let wp = normalise(&prev, h);
                     let wn = next.as_ref().map(|n| normalise(n, h));
                     if obs != wp && wn.as_ref().map(|w| obs != *w).unwrap_or(true) {
-                        v(
-                            "wrong-data-after-io-error-and-reopen".to_string(),
-                            format!("after {ename} at call {j} and a clean reopen: {}", describe_diff(&obs, &wp)),
-                        );
+                        match ex2.recovery_misorder_signature() {
+                            Some(m) => v(
+                                "misordered-levels-from-reopen:wrong-data-after-io-error-and-reopen".to_string(),
+                                format!("after {ename} at call {j} and a clean reopen: {} [{m}]", describe_diff(&obs, &wp)),
+                            ),
+                            None => v(
+                                "wrong-data-after-io-error-and-reopen".to_string(),
+                                format!("after {ename} at call {j} and a clean reopen: {}", describe_diff(&obs, &wp)),
+                            ),
+                        }
                     } else {
                         *res.fault_outcomes.entry("clean-reopen-consistent".into()).or_insert(0) += 1;
                     }
